@@ -58,6 +58,21 @@ Example io_refutation_world_is_history_independent_once_repaired :
   /\ snd (inproc_after repaired Wref [Load KMat 2%nat] (Load KMat 3%nat) fsref) = (139, [Bin]).
 Proof. vm_compute. split; reflexivity. Qed.
 
+(* the tree as found, partial statement: histories whose operations all open their file and (for reads) find at least
+   32 bytes leave no trace; [all_good W h s] checks this along the run, [good W fs o] for the last operation *)
+From OM Require Import Maths.IOPinnedPartial.
+Theorem io_history_independent_pinned_partial : forall W h o fs0,
+  all_good W h (pst0, fs0) = true -> good W (snd (run pinned W h (pst0, fs0))) o = true ->
+  snd (inproc_after pinned W h o fs0) = snd (fresh_after pinned W h o fs0)
+  /\ snd (fst (inproc_after pinned W h o fs0)) = snd (fst (fresh_after pinned W h o fs0)).
+Proof. exact io_pinned_partial_lemma. Qed.
+Print Assumptions io_history_independent_pinned_partial.
+
+Example io_pinned_partial_hypotheses_satisfiable :
+  all_good Wref [Load KVec 1%nat; Load KMat 2%nat] (pst0, fsref) = true
+  /\ good Wref (snd (run pinned Wref [Load KVec 1%nat; Load KMat 2%nat] (pst0, fsref))) (Load KVec 1%nat) = true.
+Proof. vm_compute. split; reflexivity. Qed.
+
 (* breadth-first search over histories (Maths/IOSearch.v): shortest distinguishing history, computed inside Coq *)
 From OM Require Import Maths.IOSearch.
 Theorem io_shortest_distinguishing_history_pinned :
